@@ -16,6 +16,13 @@ for d in seeded/*/; do
     C01) pk="./core/... ./blockchain/...";;
     C04) pk="./blockchain/... ./core/... ./pruner/...";;
     C03) pk="./core/... ./blockchain/...";;
+    C17) pk="./l1/... ./node/...";;
+    C10) pk="./core/trie/... ./core/trie2/... ./core/state/... ./rpc/v10/ ./rpc/v9/ ./rpc/v8/";;
+    C13) pk="./consensus/driver/... ./consensus/tendermint/... ./consensus/walstore/... ./consensus/votecounter/...";;
+    C02) pk="./core/... ./blockchain/... ./adapters/sn2core/...";;
+    C07) pk="./core/... ./db/... ./blockchain/... ./encoder/...";;
+    C16) pk="./pruner/... ./blockchain/... ./core/ ./migration/...";;
+    C18) pk="./migration/... ./node/...";;
     *) pk="./$pkgdir/...";;
   esac
   echo "#### $id" >> /tmp/confirm.log
